@@ -684,8 +684,7 @@ fn wrap_with(x: &Seq, w: Wrap, f: Fill, y: &[Kind]) -> Seq {
 }
 
 /// The position family, level by level: `levels[i]` holds every core wrapped i+1 times. `full`
-/// selects the larger context set (six wrappers, fillers a / * a/ /a), otherwise four wrappers
-/// and fillers a / a/ /a.
+/// selects the larger wrapper set (six wrappers), otherwise four wrappers; fillers a / * a/ /a.
 pub struct PositionFamily {
     contexts: Vec<(Wrap, Fill, Vec<Kind>)>,
     pub levels: Vec<Vec<Seq>>,
@@ -716,7 +715,7 @@ impl PositionFamily {
             vec![vec![lit("a")], vec![Kind::Sep], vec![Kind::Zom(false)], vec![lit("a"), Kind::Sep], vec![Kind::Sep, lit("a")]]
         }
         else {
-            vec![vec![lit("a")], vec![Kind::Sep], vec![lit("a"), Kind::Sep], vec![Kind::Sep, lit("a")]]
+            vec![vec![lit("a")], vec![Kind::Sep], vec![Kind::Zom(false)], vec![lit("a"), Kind::Sep], vec![Kind::Sep, lit("a")]]
         };
         let mut contexts: Vec<(Wrap, Fill, Vec<Kind>)> = vec![];
         for w in &wraps {
